@@ -16,7 +16,6 @@ import (
 	"encoding/asn1"
 	"encoding/pem"
 	"math/big"
-	"sync/atomic"
 	"time"
 )
 
@@ -61,10 +60,17 @@ func ski(k *ecdsa.PublicKey) []byte {
 	return h[:20]
 }
 
-var serialCtr int64 = 0x1000
-
-// NextSerial returns a process-unique serial number.
-func NextSerial() *big.Int { return big.NewInt(atomic.AddInt64(&serialCtr, 1)) }
+// NextSerial returns a fresh positive 19-byte serial number (Intel's are 20 bytes);
+// random, so that serial+-1 of one certificate never is another certificate's serial.
+func NextSerial() *big.Int {
+	b := make([]byte, 19)
+	if _, err := rand.Read(b); err != nil {
+		panic(err)
+	}
+	b[0] |= 0x40
+	b[0] &= 0x7f
+	return new(big.Int).SetBytes(b)
+}
 
 // Issue creates a certificate from tmpl for key, signed by parent (self-signed
 // when parent is nil).
